@@ -11,12 +11,15 @@ import Py4hwV.Transpile.Reasons
                                                               -> ok|dom|w=v,…(all ports)|x=v,…(state)   / err|<kind>
      prop a=1,b=2        drive inputs, one propagate()        -> same
      settle              Wire.settleAll (pending prepares)     -> same
-   `dom` = 1 when `execD` succeeds on the same pre-state (no value left [0,2^31) in this call). -/
+   `dom` = 1 when `execD` succeeds on the same pre-state (no value left [0,2^31) in this call).
+   A 5th field `pu` = 1 while the run with unknown not-yet-written outputs (Tp.initStU) is alive: no output has been read
+   before it was written (hypothesis of C02.transpile_seq_sound_from_powerup). -/
 open Proto Tp
 
 structure Sess where
   c : Option ClassD := none
   s : St := { loc := fun _ => none, att := fun _ => none, wire := fun _ => none, prep := [] }
+  su : Option St := none      -- the run with not-yet-written outputs unknown (Tp.initStU); none once it read one
 
 def showErr : Err → String
   | .zeroDiv => "zeroDiv" | .negShift => "negShift" | .unbound n => "unbound:" ++ n | .noAttr n => "noAttr:" ++ n
@@ -45,7 +48,7 @@ def showSt (c : ClassD) (s : St) : String :=
 def stepS (ss : Sess) (line : String) : Sess × String :=
   if line.startsWith "class " then
     match readClass (line.drop 6).toString with
-    | some c => ({ c := some c, s := initSt c },
+    | some c => ({ c := some c, s := initSt c, su := some (initStU c) },
                  "ok|" ++ showBool (supported c) ++ "|" ++ ",".intercalate (reasons c))
     | none => (ss, "parse-error")
   else
@@ -53,19 +56,23 @@ def stepS (ss : Sess) (line : String) : Sess × String :=
   | none => (ss, "no-class")
   | some c =>
     if line == "model" then (ss, pModule (trModule c))
-    else if line == "reset" then ({ ss with s := initSt c }, "ok")
+    else if line == "reset" then ({ ss with s := initSt c, su := some (initStU c) }, "ok")
     else if line == "settle" then
       let s2 := compact c (settle ss.s)
-      ({ ss with s := s2 }, "ok|1|" ++ showSt c s2)
+      let su2 := ss.su.map fun u => compact c (settle u)
+      ({ ss with s := s2, su := su2 }, "ok|1|" ++ showSt c s2 ++ "|" ++ showBool su2.isSome)
     else if line.startsWith "clk" || line.startsWith "prop" then
       let isClk := line.startsWith "clk"
       let asg := parseAsg ((line.drop (if isClk then 3 else 4)).toString)
       let s0 := { driveIn c ss.s asg with loc := fun _ => none }
       let dom := (execD c none c.body s0).isSome
+      let su1 : Option St := ss.su.bind fun u =>
+        let u0 := { driveIn c u asg with loc := fun _ => none }
+        (execD c none c.body u0).map fun u1 => compact c (if isClk then settle u1 else u1)
       match (if isClk then clockCycle c s0 else propagate c s0) with
       | .ok s1 =>
         let s2 := compact c s1
-        ({ ss with s := s2 }, "ok|" ++ showBool dom ++ "|" ++ showSt c s2)
+        ({ ss with s := s2, su := su1 }, "ok|" ++ showBool dom ++ "|" ++ showSt c s2 ++ "|" ++ showBool su1.isSome)
       | .error e => (ss, "err|" ++ showErr e)
     else (ss, "bad-op")
 
